@@ -2,7 +2,7 @@ SPECIFICATION Spec
 CONSTANTS
   RepAll = TRUE
   Mode = "mc"
-  MaxNodes = 8
+  MaxNodes = 6
   Enabled = {"Module", "Fn", "BinAdd", "BinMul", "BinBit", "BinShift", "Advance", "As", "Cast", "Un", "Paren", "Deref", "Int", "TyPrim"}
   FlagSets <- FlagSets_none
   VarForms <- VarForms_init
